@@ -18,6 +18,7 @@ import GeoProofs.Lemmas.C01QAreal
 import GeoProofs.Lemmas.C01QPoint
 import GeoProofs.Lemmas.C01QTriangle
 import GeoProofs.Lemmas.C01QLine
+import GeoProofs.Lemmas.TRANDims
 import Mathlib.Tactic.NormNum
 
 namespace Geo.Proofs.C01
@@ -896,5 +897,52 @@ example : (relateSpec (.line ⟨0, 0⟩ ⟨2, 0⟩) (.line ⟨1, 0⟩ ⟨3, 0⟩
     ⟨0, by norm_num, by norm_num, by norm_num, by norm_num⟩,
     ⟨1, by norm_num, by norm_num, by norm_num, by norm_num⟩,
     ⟨1/2, by norm_num, by norm_num, by norm_num, by norm_num⟩⟩
+
+/-! ### TRAN: `HasDimensions`, clause by clause, is the term read off the Rust bodies -/
+
+/-- [T] (translator tie) the `HasDimensions` impl bodies of dimensions.rs regenerated on this run — `dimensions` and
+`boundary_dimensions` of Line, LineString (first coordinate, `any` over the rest; `is_closed` read off geo-types),
+Polygon (the three `let Some(..) = coords.next()/find(..) else { return .. }` steps on the exterior iterator), Rect,
+Triangle, `dimensions` of MultiLineString (loop with early `return OneDimensional`) and MultiPolygon (loop with the
+`TwoDimensional` short cut and `max`; also its `boundary_dimensions`), MultiPoint, GeometryCollection (`dimensions` and
+`boundary_dimensions`: the same loops, the recursive calls through the `Geometry` enum being `dims` / `boundaryDims`), `is_empty` of LineString / Polygon /
+MultiPoint / MultiLineString / MultiPolygon — equal the clauses of the model's `dims`, `boundaryDims`, `isEmptyG`. -/
+theorem hasDimensions_eq_source :
+    (∀ cs, isClosedLS cs = Gen.lineStringIsClosed cs) ∧
+    (∀ a b, dims (.line a b) = Gen.lineDimensions a b) ∧
+    (∀ a b, boundaryDims (.line a b) = Gen.lineBoundaryDimensions a b) ∧
+    (∀ cs, dims (.lineString cs) = Gen.lineStringDimensions cs) ∧
+    (∀ cs, boundaryDims (.lineString cs) = Gen.lineStringBoundaryDimensions cs) ∧
+    (∀ q, dims (.polygon q) = Gen.polygonDimensions q) ∧
+    (∀ q, boundaryDims (.polygon q) = Gen.polygonBoundaryDimensions q) ∧
+    (∀ ls, dims (.multiLineString ls) = Gen.multiLineStringDimensions ls) ∧
+    (∀ ps, dims (.multiPolygon ps) = Gen.multiPolygonDimensions ps) ∧
+    (∀ mn mx, dims (.rect mn mx) = Gen.rectDimensions mn mx) ∧
+    (∀ mn mx, boundaryDims (.rect mn mx) = Gen.rectBoundaryDimensions mn mx) ∧
+    (∀ a b c, dims (.triangle a b c) = Gen.triangleDimensions a b c) ∧
+    (∀ a b c, boundaryDims (.triangle a b c) = Gen.triangleBoundaryDimensions a b c) ∧
+    (∀ cs, isEmptyG (.lineString cs) = Gen.lineStringIsEmpty cs) ∧
+    (∀ q, isEmptyG (.polygon q) = Gen.polygonIsEmpty q) ∧
+    (∀ ps, boundaryDims (.multiPolygon ps) = Gen.multiPolygonBoundaryDimensions ps) ∧
+    (∀ ps, dims (.multiPoint ps) = Gen.multiPointDimensions ps ∧ isEmptyG (.multiPoint ps) = Gen.multiPointIsEmpty ps) ∧
+    (∀ ls, isEmptyG (.multiLineString ls) = Gen.multiLineStringIsEmpty ls) ∧
+    (∀ ps, isEmptyG (.multiPolygon ps) = Gen.multiPolygonIsEmpty ps) ∧
+    (∀ gs, dims (.collection gs) = Gen.geometryCollectionDimensions dims gs) ∧
+    (∀ gs, boundaryDims (.collection gs) = Gen.geometryCollectionBoundaryDimensions boundaryDims gs) := by
+  refine ⟨Geo.Proofs.TRANDims.isClosedLS_eq, Geo.Proofs.TRANDims.lineDims_eq, Geo.Proofs.TRANDims.lineBoundaryDims_eq,
+    ?_, ?_, ?_, ?_, ?_, ?_, ?_, ?_, ?_, ?_, Geo.Proofs.TRANDims.isEmpty_eq.1, Geo.Proofs.TRANDims.isEmpty_eq.2,
+    fun ps => by simp only [boundaryDims]; exact Geo.Proofs.TRANDims.mpolyBoundaryDims_eq ps,
+    Geo.Proofs.TRANDims.multiPoint_eq, Geo.Proofs.TRANDims.multiIsEmpty_eq.1, Geo.Proofs.TRANDims.multiIsEmpty_eq.2,
+    Geo.Proofs.TRANDims.gcDims_eq, Geo.Proofs.TRANDims.gcBoundaryDims_eq⟩
+  · intro cs; simp only [dims]; exact Geo.Proofs.TRANDims.lsDims_eq cs
+  · intro cs; simp only [boundaryDims]; exact Geo.Proofs.TRANDims.lsBoundaryDims_eq cs
+  · intro q; simp only [dims]; exact Geo.Proofs.TRANDims.polyDims_eq q
+  · intro q; simp only [boundaryDims]; exact Geo.Proofs.TRANDims.polyBoundaryDims_eq q
+  · intro ls; simp only [dims]; exact Geo.Proofs.TRANDims.mlsDims_eq ls
+  · intro ps; simp only [dims]; exact Geo.Proofs.TRANDims.mpolyDims_eq ps
+  · intro mn mx; simp only [dims]; exact Geo.Proofs.TRANDims.rectDims_eq mn mx
+  · intro mn mx; simp only [boundaryDims]; exact Geo.Proofs.TRANDims.rectBoundaryDims_eq mn mx
+  · intro a b c; simp only [dims]; exact Geo.Proofs.TRANDims.triDims_eq a b c
+  · intro a b c; simp only [boundaryDims]; exact Geo.Proofs.TRANDims.triBoundaryDims_eq a b c
 
 end Geo.Proofs.C01
